@@ -35,6 +35,11 @@ def run(ctx):
         # a well-formed entry of the OTHER mode under an authorized key next to a valid one: ignored, whatever the environment
         other = E.raw_sig(1, P) if gpg else E.gpg_sig(1, P)
         cfg.append({"w": wire.case("verify_signable", {"signatures": {k1: other, k0: mk(0, P)}, "signed": P}, [k0, k1], 1, gpg), "meta": {"s": "cfg"}})
+    # OpenPGP-mode entries valid under the rule of the property with hashed-header bytes of every kind: the rule reads no octet of them
+    for hdr in (b"\x05", b"\x05\x00\x16\x0a", b"\xde\xad\xbe\xef", b"\x00" * 7, b"\xff" * 33, b"\x03\x00", bytes(range(256))):
+        for t in (1, 2):
+            sigs = {k0: E.gpg_sig(0, P, hdr=hdr), k1: E.gpg_sig(1, P, hdr=hdr)}
+            cfg.append({"w": wire.case("verify_signable", {"signatures": sigs, "signed": P}, [k0, k1], t, True), "meta": {"s": "cfg", "must_accept": True}})
     # shipped fixtures
     td = os.path.join(core.REPO, "tests", "testdata")
     r1, r2, km = (json.load(open(os.path.join(td, n))) for n in ("1.root.json", "2.root.json", "key_mgr.json"))
@@ -46,7 +51,7 @@ def run(ctx):
 
     def must(c, io):
         if c["meta"].get("must_accept") and not io.startswith("O"):
-            return "shipped fixture no longer verifies: %s" % core.impl_class(io)
+            return "an envelope with enough valid authorized signatures (shipped fixture or generated) is rejected: %s" % core.impl_class(io)
         return c01.oracle_complete(c, io) if c["meta"]["s"] == "cfg" else None
     for enc in ("utf-8", "ascii", "latin-1"):
         for only_auth in (False, True):
